@@ -4,7 +4,13 @@ Stages (DESIGN.md 5 "C14"):
   T3  lib.gen.regenerate: Gen/ErrTables.v + Gen/Consts.v from the CURRENT tree (the two switches, the enum, client's
       re-exports, routes); translator self-test on mutated copies.
   Coq ctx.coq_stage(): Proofs/GenChecks.v and Properties/C14.v are re-checked against the regenerated tables; a changed
-      switch that breaks the property makes them fail (BROKEN(theorem)).
+      switch that breaks the property makes them fail (BROKEN(theorem)). Properties/C14.v section "Under races (Msv)"
+      (Proofs/SvWf.v): every response of every interleaving of the server's request / expiry / session-end / shutdown steps
+      is well-formed (C14_responses_wellformed), the one Renew exception with its witness.
+  T2  layer 2 (lib/svtie.py, DESIGN 11.1): the scenarios in which Unlock / Renew race the lease callback and session ends,
+      a cancelled / shut-down Lock, as model-chosen schedules AND window runs on the real LockServer stack; the property
+      oracle is the response clause itself (svtie.wf_responses, model independent) on every real response; a failing
+      response is reported with the real schedule as replay (replays/C14/t2sv_failing_*.json).
   T4  harness/e2e/c14: the real stack in one process; every error-producing request of every RPC in every state that
       triggers it through the lock server itself (identity of the Go error variable), raw gRPC, REST, client.Client and the
       client package's own mapper; successes and plain refusals as well.
@@ -57,7 +63,7 @@ def translator_selftest(ctx, verbose=False):
     tmp = ctx.work / "tmp"
     tmp.mkdir(parents=True, exist_ok=True)
     env = vcheck.go_env({"GEN2COQ_REPO": str(vcheck.REPO), "GEN2COQ_ERRV": str(gen.ERRV), "TMPDIR": str(tmp)})
-    rc, out = vcheck.sh([vcheck.GO, "test", "-count=1", "-run", "TestMutants|TestBrokenTrees", "."], cwd=d, env=env, timeout=300)
+    rc, out = vcheck.sh([vcheck.GO, "test", "-v", "-count=1", "-run", "TestMutants|TestBrokenTrees", "."], cwd=d, env=env, timeout=300)
     res = {"rc": rc, "mutants": 0, "ok": 0, "skipped": 0, "failed": 0, "failed_names": [], "ran": False}
     m = re.search(r"^SELFTEST_RESULT (.*)$", out, re.M)
     if m:
@@ -97,7 +103,7 @@ def coq_expect_table(ctx):
 
 def deps_fresh():
     """GenChecks / C14 were really re-checked against the Gen files now on disk."""
-    need = ["Gen/ErrTables.v", "Gen/Consts.v", "Model/ErrCond.v", "Proofs/ErrP.v", "Proofs/GenChecks.v", "Properties/C14.v"]
+    need = ["Gen/ErrTables.v", "Gen/Consts.v", "Model/ErrCond.v", "Proofs/ErrP.v", "Proofs/GenChecks.v", "Proofs/SvWf.v", "Properties/C14.v"]
     if not all(vcheck.coq_vo_ok(r) for r in need):
         return False
     mt = lambda r: (vcheck.COQ / r).with_suffix(".vo").stat().st_mtime  # noqa
@@ -107,7 +113,7 @@ def deps_fresh():
 def failing_lemmas(log):
     """Names of the lemmas of our files the Coq errors point into."""
     out = []
-    for fn, line in re.findall(r'File "\./((?:Proofs/GenChecks|Properties/C14|Proofs/ErrP|Model/ErrCond|Gen/ErrTables|Gen/Consts)\.v)", line (\d+)', log or ""):
+    for fn, line in re.findall(r'File "\./((?:Proofs/GenChecks|Properties/C14|Proofs/ErrP|Proofs/SvWf|Model/ErrCond|Gen/ErrTables|Gen/Consts)\.v)", line (\d+)', log or ""):
         try:
             lines = (vcheck.COQ / fn).read_text().splitlines()
         except OSError:
@@ -188,6 +194,75 @@ def run_e2e(ctx, exe):
         else:
             junk.append(line)  # the server's own JSON log lines
     return obs, meta, "rc=%s\n%s" % (rc, "\n".join(junk[-30:]))
+
+
+def t2sv_stage(ctx):
+    """T2 layer 2 with the response clause as the property oracle. -> dict(traces, distinct) | None"""
+    try:
+        from lib import svtie
+        before = dict(ev=ctx.coverage.get("evaluations", 0), tr=ctx.coverage.get("traces_validated_against_impl", 0), di=ctx.coverage.get("distinct_nontrivial", 0))
+        r = svtie.run_property(ctx, "C14", corpus_props=["C14", "C05"])
+        tie = ctx.coverage["ties"].get("T2-svsched", {})
+        wf = tie.get("response_wellformedness", {})
+        if r.get("ok_build"):
+            ctx.note("T2-svsched: %d model-chosen schedules + %d window executions on the real LockServer; response clause on %d real responses (%d not well-formed)"
+                     % (tie.get("schedules_executed_on_real_code", 0), (tie.get("window_runs") or {}).get("executions", 0), wf.get("responses", 0), wf.get("failing_responses", 0)))
+        return dict(traces=ctx.coverage.get("traces_validated_against_impl", 0) - before["tr"], distinct=ctx.coverage.get("distinct_nontrivial", 0) - before["di"])
+    except Exception as ex:  # noqa
+        import traceback
+        tb = traceback.format_exc()
+        ctx.note("T2-svsched stage crashed: %r" % (ex,))
+        ctx.violation({"broken": "machinery", "stage": "T2-svsched", "traceback": tb}, "the T2 layer-2 stage of C14 crashed; nothing is shown to hold under races",
+                      name="t2sv_crash.json", no_failing_input=True)
+        return None
+
+
+def replay_t2sv(ctx, obj):
+    """Replays a schedule reported by the T2 layer-2 stage (replays/C14/t2sv_failing_*.json) on the current tree."""
+    from lib import svtie
+    b = svtie.build(ctx)
+    if not b["ok"]:
+        print("build failed: %s\n%s" % (b["why"], b["log"][-1500:]))
+        ctx.violation({"broken": "build", "log": b["log"][-3000:]}, "replay could not run: the tree does not build against the harness", name="replay_failed.json", no_failing_input=True)
+        return
+    sid = obj.get("id", "replay")
+    if str(sid).startswith("w:"):
+        scen = sid[2:].split("~")[0]
+        scs = svtie.load_scenarios(ids=[scen])
+        seed = int(obj.get("seed", ctx.seed))
+        print("window run %s: re-running the (deterministic) search over scenario %r with seed %d on %s" % (sid, scen, seed, vcheck.REPO))
+        ew = svtie.execute_windows(ctx, b, scs, ctx.tier, seed, "replay-w")
+        runs = {}
+        for k, v in ew["runs"].items():
+            v.sid = "w:" + k
+            runs[v.sid] = v
+        j = svtie.judge("C14", runs, {}, [], ew["images"], compare=False)
+    else:
+        c = dict(obj)
+        c["id"] = "replay"
+        cf, log = svtie.expand(ctx, b, [c], "replay")
+        if log:
+            print(log)
+        e = svtie.execute(ctx, b, cf, "replay-run", procs=1)
+        runs = e["runs"]
+        j = svtie.judge("C14", runs, e["chk"], e["failures"], e["images"], tp=e.get("tp"))
+    print("expected: every response well-formed (no success bit with an error; Lock/Unlock false => an error; Renew false without error only under a pending expiry)")
+    print("responses judged: %d, by kind: %s" % (j["wf"]["responses"], json.dumps(j["wf"]["responses_by_kind"])))
+    same = [v for v in j["violations"] if v[0] == sid] or j["violations"]
+    for vsid, idx, text in same[:3]:
+        print("observed: schedule %s item %d: %s" % (vsid, idx, text))
+        run = runs.get(vsid)
+        if run is not None:
+            print("\n".join(run.raw[:400]))
+    if j["violations"]:
+        vsid, idx, text = same[0]
+        ctx.violation(svtie._replay_obj("C14", runs[vsid], text, None, {"violation_at": idx, "seed": obj.get("seed", ctx.seed)}),
+                      "replayed schedule still violates C14 at item %d of %s: %s" % (idx, vsid, text[:400]), name="replayed_t2sv.json")
+    else:
+        print("verdict: pass (%d trace(s), no response violates the clause)" % len(runs))
+    ctx.coverage["evaluations"] = j["wf"]["responses"]
+    ctx.coverage["distinct_nontrivial"] = len(runs)
+    ctx.coverage["samples"] = [{"replayed": sid}]
 
 
 # -------------------------------------------------------------------------------------------------------------- oracle
@@ -294,8 +369,16 @@ def replay_obj(o, rule, text, n_same):
 
 def run(ctx):
     cov = ctx.coverage
+    if ctx.replay:
+        try:
+            robj = json.loads(Path(ctx.replay).read_text())
+        except Exception:  # noqa
+            robj = None
+        if isinstance(robj, dict) and robj.get("kind") == "t2sv-schedule":
+            return replay_t2sv(ctx, robj)
     ctx.assumptions += [
-        "srv_result_ok (Model/ErrCond.v): a LockServer entry point never returns locked/unlocked = true together with an error — a hypothesis of C14_wellformed/C14_end_to_end about server/server.go, to be discharged from the sequential model; until then tied to the code by the 'direct' transport of the harness, which checks it on every answer of the real LockServer",
+        "srv_result_ok (Model/ErrCond.v): a LockServer entry point never returns locked/unlocked = true together with an error — a hypothesis of C14_wellformed/C14_end_to_end about server/server.go; proved of every response of the interleaving model Msv (C14_srv_result_ok_under_races, for the validated requests Msv models), tied to the code by the 'direct' transport of the harness (every answer of the real LockServer, sequential) and by T2 layer 2 (every real response under the races of the C14 scenarios)",
+        "Renew answers locked=false WITHOUT an error when it meets a lease timer that has fired and whose callback has not yet removed the timer-map entry (timermap.Reset; model and code agree: C14_renew_strict_refuted, seen on the real code in every run: coverage T2-svsched.response_wellformedness.responses_by_kind 'renew:false-without-error'); the property's text does not forbid it (no error with a success bit, no success bit with an error) and the oracle admits it only while that callback is in flight (C14_renew_silent_refusal)",
         "cond_err (which Go error variable the lock server returns in each condition) is hand-written from server/server.go, lock/manager.go, lock/lock.go and tied to the code by identity comparison in the harness (transport 'direct')",
         "grpc_resp (how the four Service methods build the response) is hand-written from net/grpc/grpc.go and tied to the code by the harness only (gRPC and REST answers)",
         "the translator gen2coq (go/parser + ours) is trusted to render the two switches, the enum, client's re-exports and the REST routes faithfully or to flag them as not recognised; mitigated by its self-test on mutated copies and by the end-to-end runs exercising the same tables",
@@ -340,6 +423,10 @@ def run(ctx):
         ctx.violation({"broken": "machinery", "python_oracle": ORACLE, "coq_c14_expect": table},
                       "the oracle table of checks/c14.py and Model/ErrCond.v c14_expect differ", name="oracle_table.json", no_failing_input=True)
 
+    # ---- T2 layer 2: Unlock / Renew / Lock racing the lease callback, session ends and the shutdown on the real LockServer stack (model-chosen
+    #      schedules + window runs); the oracle is the response clause on every real response (svtie.oracle_C14)
+    t2 = t2sv_stage(ctx)
+
     # ---- T1 through the real gRPC Service handlers: generated histories, error CODES compared with the model's through the
     #      regenerated server switch, the oracle's C14 clauses (no error with success, no success bit with an error, each refusal
     #      its own code) evaluated on every real response
@@ -369,6 +456,7 @@ def run(ctx):
     # replay mode: show one scenario
     if ctx.replay:
         return do_replay(ctx, obs, judged)
+    n_t2 = ((cov["ties"].get("T2-svsched") or {}).get("response_wellformedness") or {}).get("responses", 0)
 
     # ---- corpus: scenarios of past findings must be exercised and pass (they are part of every run)
     corpus = []
@@ -444,15 +532,18 @@ def run(ctx):
         "direct_identity_checks": sum(1 for (o, v, rule, _) in judged if o["transport"] == "direct" and rule == "own-code" and v == "pass"),
         "wellformedness_checks": sum(1 for o in obs if not o.get("transport_err")),
     }
-    cov["evaluations"] = n("pass") + n("violation")
-    cov["distinct_nontrivial"] = len(distinct)
-    cov["traces_validated_against_impl"] = len(obs)
+    cov["evaluations"] = n("pass") + n("violation") + n_t2
+    cov["distinct_nontrivial"] = len(distinct) + (t2 or {}).get("distinct", 0)
+    cov["traces_validated_against_impl"] = len(obs) + (t2 or {}).get("traces", 0)
     cov["exhaustive"] = False
     cov["rule"] = ("Coq: case analysis over all 6 conditions x the regenerated tables (exhaustive). End to end: a fixed list of request sequences "
                    "(no randomness; VERIF_SEED is not used), each error-producing request of Lock/TryLock/Unlock/Renew in every state that triggers it "
                    "(unknown name, wrong key, second unlock, after lease expiry, held without lease, full for the whole wait, other size, size <= 0, ...), "
-                   "issued through 5 transports (direct, grpc, clientmap, rest, client). evaluations = observations on which the predicate was evaluated; "
-                   "distinct_nontrivial = distinct (transport, scenario) pairs that are instances of one of the six error conditions and whose state was reached")
+                   "issued through 5 transports (direct, grpc, clientmap, rest, client). Under races (T2 layer 2, seeded by VERIF_SEED): the response clause on "
+                   "every answered call of every model-chosen schedule and window execution of the C14 scenarios (harness/svsched/scenarios/sv.json) on the real "
+                   "LockServer. evaluations = end-to-end observations on which the predicate was evaluated + real responses judged by the clause under races; "
+                   "distinct_nontrivial = distinct (transport, scenario) pairs that are instances of one of the six error conditions and whose state was reached "
+                   "+ distinct schedules executed")
     pick = []
     for want in (("grpc", "renew-unknown-name"), ("rest", "unlock-wrong-key"), ("client", "lock-wait-timeout"), ("direct", "trylock-size-mismatch"),
                  ("clientmap", "trylock-size-0"), ("rest", "trylock-grant")):
